@@ -12,6 +12,10 @@ From SCC Require Import Base.Sexp Lang.AxSyn Sem.AxSem Model.ParMoves Model.Back
 Import ListNotations.
 Open Scope Z_scope.
 Open Scope list_scope.
+(* names that lived in this file before they moved to Proof/SimFrag.v (kept for qualified uses) *)
+Notation def_cf := SimFrag.def_cf (only parsing).
+Notation cf_frag := SimFrag.cf_frag (only parsing).
+Notation plain_types := SimFrag.plain_types (only parsing).
 
 (* def_cf, cf_frag, plain_types: Proof/SimFrag.v *)
 
